@@ -1,7 +1,7 @@
 """C12 - a session that ends, at any point and for any reason, releases everything it held."""
 import random
 
-from harness import corecheck, gen, report
+from harness import corecheck, gen, mc, report
 
 
 def families(tier, rng):
@@ -31,6 +31,8 @@ def families(tier, rng):
 
 def run(tier, seed):
     chk = report.Check("C12", tier, seed)
+    mc.into(chk, mc.run_config("MC_Res_q" if tier == "quick" else "MC_Res_t", "MC_Res", must_cover=("ReplyEv", "CtlClose")))
+    mc.into(chk, mc.run_config("MC_Fault_q" if tier == "quick" else "MC_Fault_t", "MC_Seq", must_cover=("ReplyEv", "CtlClose")))
     rng = random.Random(seed)
     fam = families(tier, rng)
     for pool in (False, True):
